@@ -46,9 +46,12 @@ class Report:
         self.counts_min = {}     # rule -> minimum number of instances (vacuity guard)
         self.selftest = None
         self.exhaustive = False
+        self.form = None         # how decorated entry points are being called in the current pass (see __main__)
 
     # ------------------------------------------------------------------ recording
     def add(self, rule, verdict, where, msg, detail=None):
+        if self.form and verdict != PASS:
+            msg = "%s [%s]" % (msg, self.form)
         inst = Instance(rule, verdict, where, msg, detail)
         k = inst.key() + (verdict,)
         if k in self._seen:
